@@ -9,12 +9,6 @@ import (
 
 // C17: SCAN / HSCAN / SSCAN full iterations under mutation.
 
-func init() {
-	anyReply := func(m *Model, s *Sess, a []string, _ bool) Expect { return Expect{Mode: exAny} }
-	reg("hscan", -3, false, anyReply)
-	reg("sscan", -3, false, anyReply)
-}
-
 func genScanPlan(seed uint64, thorough bool) *Plan {
 	g := newGen(seed, 11)
 	p := &Plan{Prop: "C17", Seed: seed, Class: "turns", Knobs: Knobs{Turns: true, RandSeed: int64(seed), MaxSteps: 400000, Sticky: 70}}
@@ -107,7 +101,7 @@ func genScanPlan(seed uint64, thorough bool) *Plan {
 			opts = append(opts, []string{"COUNT", g.pick("1", "2", "3", "10", "1000")})
 		}
 		if g.chance(3) {
-			opts = append(opts, []string{"MATCH", g.pick("*", "e*", "e1*", "e?", "e[0-4]*", "*7", "nomatch*", "e[^1]*", "", "e[0-9]", "e1[0-9]", "e\\[*", "e\\**", "e\\?3", "e\\\\*", "e[\\]]*", "e[*?]*", "e\\^6")})
+			opts = append(opts, []string{"MATCH", g.pick("*", "e*", "e1*", "e?", "e[0-4]*", "*7", "nomatch*", "e[^1]*", "", "e[0-9]", "e1[0-9]", "e\\[*", "e\\**", "e\\?3", "e\\\\*", "e[\\]]*", "e[*?]*", "e\\^6", "e[!1]*", "[!e]*", "e[!0-4]*")})
 		}
 		if kind == "scan" && (g.chance(4) || typeBias && g.chance(2)) {
 			opts = append(opts, []string{"TYPE", g.pick("string", "list", "hash", "set", "zset")})
@@ -182,7 +176,17 @@ func genScanPlan(seed uint64, thorough bool) *Plan {
 					items = append(items, cmdItem("SET", e, "w"))
 				}
 			default:
-				items = append(items, cmdItem("PING"))
+				if g.chance(3) {
+					// everything goes at once: an iteration under way has to end all the same
+					switch kind {
+					case "scan":
+						items = append(items, cmdItem(g.pick("FLUSHDB", "FLUSHALL")))
+					default:
+						items = append(items, cmdItem(g.pick("DEL", "UNLINK"), "coll"))
+					}
+				} else {
+					items = append(items, cmdItem("PING"))
+				}
 			}
 		}
 		muts = append(muts, Client{Name: "mutator", Items: items})
